@@ -71,11 +71,15 @@ def gen_cases(rng, tier):
         pool = sorted(n for n in nm["valid"] | nm["skipped"] if not recvlib.kebab_unreachable(n))
         if not pool:
             continue
-        for _ in range(per):
+        has_flat = any(f["flatten"] for f in x.get("fields", []))
+        own = [f["name"] for f in x.get("fields", []) if not f["skip"] and not f["flatten"] and not recvlib.kebab_unreachable(f["name"])]
+        for _ in range(per * (4 if has_flat else 1)):
             src = recvlib.gen_recv_item(rng, x, "x") or "x()"
             k = rng.choice([1, 1, 1, 2, 2, 3])
             for _ in range(k):
-                u = mutate(rng, rng.choice(pool))
+                # under a flatten member, prefer misspellings of the ENCLOSING receiver's own names (they must not leak downwards)
+                base = rng.choice(own) if (has_flat and own and rng.random() < 0.6) else rng.choice(pool)
+                u = mutate(rng, base)
                 item = rng.choice(["%s = 1" % u, "%s" % u, '%s = "v"' % u, "%s(a = 1)" % u])
                 s2 = insert_unknown(rng, src, item)
                 if s2 is None:
